@@ -4,21 +4,24 @@ From Coq Require Import List ZArith Bool Arith Lia.
 From MM Require Import Model.Heap.
 Import ListNotations.
 
+Section HeapProofs.
+Context {A : Type}.
+
 (* ---------- basic facts ---------- *)
-Lemma nth_set_nth_same (s : store) l a : l < length s -> nth l (set_nth s l a) [] = a.
+Lemma nth_set_nth_same (s : store A) l a : l < length s -> nth l (set_nth s l a) [] = a.
 Proof. revert l. induction s as [|x s IH]; intros [|l] H; cbn in *; try lia; auto. apply IH. lia. Qed.
-Lemma nth_set_nth_other (s : store) l k a : k <> l -> nth k (set_nth s l a) [] = nth k s [].
+Lemma nth_set_nth_other (s : store A) l k a : k <> l -> nth k (set_nth s l a) [] = nth k s [].
 Proof. revert l k. induction s as [|x s IH]; intros [|l] [|k] H; cbn; auto; try congruence. Qed.
-Lemma length_set_nth (s : store) l a : length (set_nth s l a) = length s.
+Lemma length_set_nth (s : store A) l a : length (set_nth s l a) = length s.
 Proof. revert l. induction s as [|x s IH]; intros [|l]; cbn; auto. Qed.
-Lemma nth_app_old (s : store) a l : l < length s -> nth l (s ++ [a]) [] = nth l s [].
+Lemma nth_app_old (s : store A) a l : l < length s -> nth l (s ++ [a]) [] = nth l s [].
 Proof. intros H. now rewrite app_nth1. Qed.
 
 Lemma mem_true_iff v l : mem v l = true <-> In v l.
 Proof. induction l as [|w l IH]; cbn; [split; [discriminate|tauto]|].
   rewrite orb_true_iff, IH, Nat.eqb_eq. split; intros [H|H]; auto. Qed.
 
-Lemma written_not_fresh p : forall fresh v, In v (written_args p fresh) -> mem v fresh = false.
+Lemma written_not_fresh (p : list (cmd A)) : forall fresh v, In v (written_args p fresh) -> mem v fresh = false.
 Proof.
   induction p as [|c p IH]; intros fresh v H; cbn in H; [tauto|].
   destruct c as [dst f srcs|tgt f srcs].
@@ -31,14 +34,14 @@ Qed.
 (* ---------- the invariant of one run ---------- *)
 (* n0 = size of the store when the routine was called; [fresh] = variables bound by the
    routine itself so far *)
-Record Inv (n0 : nat) (fresh : list var) (e : env) (s : store) : Prop := {
+Record Inv (n0 : nat) (fresh : list var) (e : env) (s : store A) : Prop := {
   inv_len   : n0 <= length s;
   inv_bound : forall v l, lookup e v = Some l -> l < length s;
   inv_fresh : forall v l, lookup e v = Some l -> mem v fresh = true -> n0 <= l;
   inv_alias : forall v w l, mem v fresh = true -> lookup e v = Some l -> lookup e w = Some l -> v = w
 }.
 
-Definition fresh_after (c : cmd) (fresh : list var) : list var :=
+Definition fresh_after (c : cmd A) (fresh : list var) : list var :=
   match c with Compute dst _ _ => dst :: fresh | Update _ _ _ => fresh end.
 
 Lemma step_inv n0 fresh c e s :
@@ -102,7 +105,7 @@ Proof.
 Qed.
 
 (* initial condition: every binding points into the store *)
-Definition env_ok (e : env) (s : store) : Prop := forall v l, lookup e v = Some l -> l < length s.
+Definition env_ok (e : env) (s : store A) : Prop := forall v l, lookup e v = Some l -> l < length s.
 
 Lemma inv_initial e s : env_ok e s -> Inv (length s) [] e s.
 Proof. intros H. split; [lia | exact H | intros v l _ M; discriminate | intros v w l M; discriminate]. Qed.
@@ -122,11 +125,11 @@ Corollary inplace_footprint p e s : env_ok e s ->
 Proof. intros H l Hl Hw. exact (exec_footprint p e s [] (length s) l (inv_initial _ _ H) Hl Hw). Qed.
 
 (* ---------- DETERMINISM: the result is a function of the argument contents ---------- *)
-Definition view_eq (e1 : env) (s1 : store) (e2 : env) (s2 : store) : Prop :=
+Definition view_eq (e1 : env) (s1 : store A) (e2 : env) (s2 : store A) : Prop :=
   forall v, read s1 e1 v = read s2 e2 v.
 
 (* targets of in-place updates are all fresh *)
-Fixpoint ro (p : list cmd) (fresh : list var) : bool :=
+Fixpoint ro (p : list (cmd A)) (fresh : list var) : bool :=
   match p with
   | [] => true
   | Compute dst _ _ :: r => ro r (dst :: fresh)
@@ -215,24 +218,24 @@ Proof.
 Qed.
 
 (* ---------- SCHEDULES: concurrent read-only calls on shared inputs ---------- *)
-Record thread := mkT { t_env : env; t_fresh : list var; t_rest : list cmd }.
-Definition gstate := (store * list thread)%type.
+Record thread := mkT { t_env : env; t_fresh : list var; t_rest : list (cmd A) }.
+Definition gstate := (store A * list thread)%type.
 
-Definition upd {A} (l : list A) (i : nat) (a : A) : list A :=
+Definition upd {B} (l : list B) (i : nat) (a : B) : list B :=
   firstn i l ++ match skipn i l with [] => [] | _ :: t => a :: t end.
 
-Lemma nth_error_upd_same {A} (l : list A) i a x : nth_error l i = Some x -> nth_error (upd l i a) i = Some a.
+Lemma nth_error_upd_same {B} (l : list B) i a x : nth_error l i = Some x -> nth_error (upd l i a) i = Some a.
 Proof. revert i. induction l as [|y l IH]; intros [|i] H; cbn in *; try discriminate; auto. apply (IH i H). Qed.
-Lemma upd_cons_S {A} (y : A) l i a : upd (y :: l) (S i) a = y :: upd l i a.
+Lemma upd_cons_S {B} (y : B) l i a : upd (y :: l) (S i) a = y :: upd l i a.
 Proof. reflexivity. Qed.
-Lemma upd_nil {A} i (a : A) : upd [] i a = [].
+Lemma upd_nil {B} i (a : B) : upd [] i a = [].
 Proof. destruct i; reflexivity. Qed.
-Lemma nth_error_upd_other {A} (l : list A) i j a : i <> j -> nth_error (upd l i a) j = nth_error l j.
+Lemma nth_error_upd_other {B} (l : list B) i j a : i <> j -> nth_error (upd l i a) j = nth_error l j.
 Proof. revert i j. induction l as [|y l IH]; intros i j H.
   - now rewrite upd_nil.
   - destruct i as [|i]; destruct j as [|j]; try congruence; try reflexivity.
     rewrite upd_cons_S. cbn [nth_error]. apply IH. congruence. Qed.
-Lemma length_upd {A} (l : list A) i a : length (upd l i a) = length l.
+Lemma length_upd {B} (l : list B) i a : length (upd l i a) = length l.
 Proof. revert i. induction l as [|y l IH]; intros i; [now rewrite upd_nil|]. destruct i as [|i]; [reflexivity|].
   rewrite upd_cons_S. cbn [length]. now rewrite IH. Qed.
 
@@ -251,7 +254,7 @@ Definition gstep (i : nat) (g : gstate) : gstate :=
 Definition grun (sched : list nat) (g : gstate) : gstate := fold_left (fun g i => gstep i g) sched g.
 
 (* what one thread's solo (sequential) run from the initial store produces *)
-Definition TInv (n0 : nat) (s : store) (th : thread) (solo : env * store) : Prop :=
+Definition TInv (n0 : nat) (s : store A) (th : thread) (solo : env * store A) : Prop :=
   Inv n0 (t_fresh th) (t_env th) s /\ ro (t_rest th) (t_fresh th) = true /\
   exists e' s', Inv n0 (t_fresh th) e' s' /\ view_eq (t_env th) s e' s' /\
                 (forall v, lookup (t_env th) v = None <-> lookup e' v = None) /\
@@ -260,12 +263,12 @@ Definition TInv (n0 : nat) (s : store) (th : thread) (solo : env * store) : Prop
 Definition Sep (th tj : thread) : Prop :=
   forall v l, mem v (t_fresh th) = true -> lookup (t_env th) v = Some l -> forall w, lookup (t_env tj) w <> Some l.
 
-Definition GInv (n0 : nat) (solos : list (env * store)) (g : gstate) : Prop :=
+Definition GInv (n0 : nat) (solos : list (env * store A)) (g : gstate) : Prop :=
   let '(s, ths) := g in
   (forall i th, nth_error ths i = Some th -> exists so, nth_error solos i = Some so /\ TInv n0 s th so) /\
   (forall i j th tj, i <> j -> nth_error ths i = Some th -> nth_error ths j = Some tj -> Sep th tj).
 
-Lemma read_app_old e (s : store) a v : env_ok e s -> read (s ++ [a]) e v = read s e v.
+Lemma read_app_old e (s : store A) a v : env_ok e s -> read (s ++ [a]) e v = read s e v.
 Proof. intros H. unfold read. destruct (lookup e v) as [l|] eqn:E; [|reflexivity]. apply nth_app_old. now apply (H v). Qed.
 
 Lemma gstep_inv n0 solos i g : GInv n0 solos g -> GInv n0 solos (gstep i g).
@@ -339,8 +342,8 @@ Qed.
 
 (* initial global state: n threads, each about to run a read-only program on arguments that
    live in the shared initial store *)
-Definition init_threads (calls : list (env * list cmd)) : list thread := map (fun c => mkT (fst c) [] (snd c)) calls.
-Definition solo_runs (s0 : store) (calls : list (env * list cmd)) : list (env * store) :=
+Definition init_threads (calls : list (env * list (cmd A))) : list thread := map (fun c => mkT (fst c) [] (snd c)) calls.
+Definition solo_runs (s0 : store A) (calls : list (env * list (cmd A))) : list (env * store A) :=
   map (fun c => exec (snd c) (fst c, s0)) calls.
 
 Lemma ginv_init s0 calls :
@@ -377,11 +380,13 @@ Proof.
   rewrite Hr in X. cbn in X. rewrite <- X. apply V.
 Qed.
 
+End HeapProofs.
+
 (* every routine of the table: the read-only ones are read-only, the in-place ones write
    only their designated arguments *)
 Lemma routines_effects :
   map (fun r => (r_id r, footprint r)) routines =
   [(1%Z, []); (2%Z, []); (3%Z, []); (4%Z, []); (5%Z, []); (6%Z, []); (7%Z, []); (8%Z, []); (9%Z, []); (10%Z, []);
    (11%Z, []); (12%Z, []);
-   (20%Z, [0; 1]); (21%Z, [0]); (22%Z, [0]); (23%Z, [0]); (24%Z, [0]); (25%Z, [2])].
+   (20%Z, [0; 1]); (21%Z, [0]); (22%Z, [0]); (23%Z, [0]); (24%Z, [0]); (25%Z, [2]); (30%Z, [])].
 Proof. reflexivity. Qed.
